@@ -23,6 +23,18 @@ def request(rid, src, dst, *, trx_type='Voyager', trx_mode='mode 1', spacing=50e
     return r
 
 
+def intify(rng, reqs, share=0.25):
+    """Numbers written without decimal point or exponent in a JSON file arrive as integers: spacing, bandwidth and
+    channel counts of a share of the requests are turned into int when they are whole numbers."""
+    for r in reqs:
+        if rng.random() < share:
+            te = r['path-constraints']['te-bandwidth']
+            for k in ('spacing', 'path_bandwidth'):
+                if isinstance(te.get(k), float) and te[k].is_integer():
+                    te[k] = int(te[k])
+    return reqs
+
+
 def synchronization(sid, ids):
     return {'synchronization-id': str(sid), 'svec': {'relaxable': False, 'disjointness': 'node link',
                                                       'request-id-number': [str(i) for i in ids]}}
